@@ -54,7 +54,13 @@ theorem puso_fold (f : Rat × Rat → Key × Rat → Rat × Rat)
 macro "pair_arith" : tactic =>
   `(tactic| first
     | rfl
-    | (refine Prod.ext ?_ ?_ <;> simp only [] <;> first | linarith | (simp; linarith)))
+    | (refine Prod.ext ?_ ?_ <;> simp only [] <;> first | linarith | (simp; linarith))
+    -- a combination of tests no input satisfies (reordered / merged branches of the source)
+    | (exfalso; simp_all; done)
+    | (exfalso; simp_all; linarith)
+    | (simp_all; done)
+    | (refine Prod.ext ?_ ?_ <;> simp_all <;> linarith)
+    | grind)
 
 /-- `approximate_pubo_extrema` (generated from the source) is the model's `puboExtrema` -/
 theorem approximate_pubo_extrema_eq_model (P : Poly) : approximate_pubo_extrema P = puboExtrema P := by
